@@ -3,12 +3,13 @@ import pv
 SPEC = {
     "targets": ["Properties/C17.vo", "Run/C17.vo"],
     "theorems": {"Properties.C17": ["C17_covered_or_deferred", "C17_no_duplicate_creation", "C17_stale_removed", "C17_idempotent",
-                                    "C17_converges", "C17_grouping", "C17_comment_line", "C17_gitlab_L1", "C17_github_L1",
-                                    "C17_platform_L2", "C17_gitlab_idempotent", "C17_github_idempotent",
-                                    "C17_gitlab_prefix_L1_refuted", "C17_github_skip_starves_refuted", "C17_nonvacuous"]},
+                                    "C17_converges", "C17_todo_nil_spec", "C17_grouping", "C17_comment_line", "C17_gitlab_L1", "C17_github_L1",
+                                    "C17_platform_L2", "C17_gitlab_idempotent", "C17_github_idempotent", "C17_platforms_converge",
+                                    "C17_gitlab_prefix_L1_refuted", "C17_counting_skips_starves_refuted", "C17_nonvacuous"]},
     "harness_args": lambda tier: ["C17", "--n", 300, "--diffs", 140, "--servers", 32] if tier == "quick"
                                  else ["C17", "--n", 4000, "--diffs", 2000, "--servers", 500],
-    "search_args": lambda tier: ["C17", "--n", 1000, "--diffs", 600, "--servers", 60],
+    # used three times (three extra seeds) when an obligation broke without an oracle failure: keep it at quick-tier size
+    "search_args": lambda tier: ["C17", "--n", 400, "--diffs", 100, "--servers", 40],
     "level": "proof",
     "trusted_base": [
         "Coq 8.16.1 kernel + VM (vm_compute); no axioms (Print Assumptions: closed under the global context)",
@@ -27,7 +28,6 @@ SPEC = {
         "API calls succeed (Create/Delete/List errors abort the run and are outside the model)",
         "law L1 is a premise of the generic theorems; it is proved for the GitLab model (lines >= 1, non-empty paths) and the GitHub model, "
         "and checked on the real functions for every generated (diff, pending comment)",
-        "convergence needs 'Create never skips' (no pending comment on a path outside the PR/MR): known finding C17-skipped-comments-consume-budget otherwise",
     ],
 }
 
